@@ -651,6 +651,16 @@ def run_shard(ctx, shard):
             ctx.bulk(1, 1, {"window_runs": 1})
             if res:
                 ctx.report({"alive": True, "events": [list(e) for e in evs[:3]] + [["...", n, copies]] + [list(evs[-1])], "window": [n, copies]}, res)
+        # a busy circuit: the peer keeps sending (and the client keeps acknowledging) while a send of the client's own waits for its ack
+        for step_s in (1.0, 0.5, 2.0):
+            evs = [("csend", True)]
+            for _ in range(int(36 / step_s)):
+                evs += [("recv", True, 0), ("tick", step_s)]
+            for alive in (True, False):
+                res, h = run_sequence(evs, alive)
+                ctx.bulk(1, 1, {"budget_runs": 1, "busy_circuit_runs": 1, "timed_out": 1 if "timed_out" in h.flags else 0})
+                if res:
+                    ctx.report({"alive": alive, "events": [list(e) for e in evs]}, res)
         for tail in ([("goodbye", True)], [("csend", True), ("goodbye", False)]):
             evs = [("recv", True, 0), ("csend", True)] + tail
             for alive in (True, False):
